@@ -38,6 +38,8 @@ def _cfg_reads(node: ast.AST) -> Set[str]:
 
 
 def run(ctx: Ctx) -> None:
+    if getattr(ctx, "_depth", 0) >= 2:
+        return  # alias of an alias: not followed (breaks import cycles between rule modules)
     repo = ctx.repo
     ctx.rule("C18.R1", "each limit setting is read at its own enforcement point and at no other limit's sink", floor=12)
     ctx.rule("C18.R2", "comparators: HTTP/1 closes at requests >= max; HTTP/2 sends GOAWAY at requests > max; the worker terminates at requests > max_requests after counting exactly one", floor=5)
